@@ -461,7 +461,7 @@ def same_sizes(m, o):
 
 
 # ------------------------------------------------------------------------------------------------ E
-DIMS = [(640, 360), (1920, 1080), (None, 360), (640, None), (None, None), (3, 7), (0, 0), (1280.5, 720)]
+DIMS = [(640, 360), (1920, 1080), (None, 360), (640, None), (None, None), (3, 7), (0, 0), (1280.5, 720), (600, 600), (360, 640)]
 REL = Fraction(1, 10**9)
 
 
@@ -675,15 +675,118 @@ def stream_attr_print(ctx, res):
     res["distribution"]["attribute_print_reparse_cases(to_xml_attribute -> from_xml_attribute -> to_xml_attribute)"] = hist
 
 
+# ------------------------------------------------------------------------------------------------ G
+def vh_receiver(kind, x):
+    return {"size": geom.mk_size, "point": geom.mk_point, "stretch": geom.mk_stretch, "padding": geom.mk_padding,
+            "layout": geom.mk_layout}[kind](x)
+
+
+def vh_call(kind, x, w, h, horiz=None):
+    """one relativization of a fresh receiver -> (observation for the Coq oracle, oracle request, snapshot of the result)"""
+    oq = lambda v: None if v is None else Some(exact(v))  # noqa: E731
+    obj = vh_receiver(kind, x)
+    if kind == "size":
+        d = w if horiz else h
+        r = impl.call(lambda: obj.as_percentage_of(video_width=d if horiz else None, video_height=None if horiz else d))
+        o = Ok(geom.w_size(r.v)) if isinstance(r, Ok) else r
+        return o, (1301, [geom.w_size(obj), horiz, oq(d), o]), (geom.value_snap(r.v) if isinstance(r, Ok) else r)
+    r = impl.call(lambda: obj.as_percentage_of(w, h))
+    wrap = {"point": lambda v: Layout(origin=v), "stretch": lambda v: Layout(extent=v), "padding": lambda v: Layout(padding=v),
+            "layout": lambda v: v}[kind]
+    o = geom.res_layout(Ok(wrap(r.v)) if isinstance(r, Ok) else r)
+    return o, (1304, [geom.w_layout(wrap(obj)), oq(w), oq(h), o]), (geom.value_snap(r.v) if isinstance(r, Ok) else r)
+
+
+def value_history_cases(rng, n_random):
+    """(kind, value, w, h, horiz): equal Sizes against video_width=N and then video_height=N with the SAME N, both orders
+    (each order is the first use of its value); composites on square videos and on pairs of videos where the width of one
+    is the height of the next; then random values over the same video sizes"""
+    cases = []
+    k = 0
+    for u in range(5):
+        for N in (600, 360, 15, 32):
+            for rep in range(2):
+                v = 2 + k / 64.0                      # a value not used anywhere else in the run
+                k += 1
+                order = (True, False) if rep == 0 else (False, True)
+                for horiz in order:
+                    cases.append(("size", (v, u), N, N, horiz))
+    for u in range(5):
+        s = (2, u)
+        for (w, h) in ((600, 600), (640, 360), (360, 640), (15, 15), (32, 32)):
+            cases.append(("point", (s, s), w, h, None))
+            cases.append(("stretch", (s, s), w, h, None))
+            cases.append(("padding", (s, s, s, s), w, h, None))
+            cases.append(("layout", ((s, s), (s, s), (s, s, s, s), (0, 0), None), w, h, None))
+    dims = [(600, 600), (640, 360), (360, 640), (360, 360), (1080, 1920), (1920, 1080), (15, 32), (32, 15), (None, 600), (600, None)]
+    for _ in range(n_random):
+        kind = rng.choice(["size", "size", "point", "stretch", "padding", "layout"])
+        sz = lambda: (rng.choice([1, 2, 2.5, 8, 12, 33.33]), rng.randrange(5))  # noqa: E731  (few values: equal Sizes recur)
+        w, h = rng.choice(dims)
+        if kind == "size":
+            cases.append(("size", sz(), w, h, rng.random() < 0.5))
+        elif kind in ("point", "stretch"):
+            cases.append((kind, (sz(), sz()), w, h, None))
+        elif kind == "padding":
+            cases.append((kind, (sz(), sz(), sz(), sz()), w, h, None))
+        else:
+            cases.append((kind, ((sz(), sz()), (sz(), sz()) if rng.random() < 0.5 else None,
+                                 (sz(), sz(), sz(), sz()) if rng.random() < 0.5 else None, None, None), w, h, None))
+    return cases
+
+
+def run_value_history(cases, res, count=True):
+    first = [vh_call(*c) for c in cases]
+    oks = oracle_batch([f[1] for f in first])
+    bad = []
+    for c, (o, rq, snap_), ok in zip(cases, first, oks):
+        if count:
+            res["evaluations"] += 1
+        kind, x, w, h, horiz = c
+        if ok != 1:
+            bad.append({"kind": "relativize-value-after-other-calls", "replay": "value-history", "input": list(c), "impl_obs": repr(o)[:300],
+                        "what": f"{kind} {x!r}.as_percentage_of(" + (f"video_{'width' if horiz else 'height'}={w if horiz else h}"
+                                                                        if kind == "size" else f"{w}, {h}")
+                                + f") -> {o!r}: not the exact percentage of its own reference (equal values were relativized "
+                                  f"against other references earlier in the process)"})
+    # every call once more, on another equal receiver, after all the other calls and in the reverse order
+    for c, f in zip(reversed(cases), reversed(first)):
+        again = vh_call(*c)[2]
+        if count:
+            res["evaluations"] += 1
+        if again != f[2]:
+            bad.append({"kind": "result-depends-on-call-history", "replay": "value-history", "input": list(c),
+                        "impl_obs": repr((f[2], again))[:300],
+                        "what": f"{c[0]} {c[1]!r}.as_percentage_of (video {c[2]}x{c[3]}) gave {f[2]!r} and, after other calls, {again!r}"})
+    return bad
+
+
+def stream_value_history(ctx, res):
+    """a value operation depends only on the receiver and the reference, not on the calls made before it"""
+    cases = value_history_cases(ctx.rng, ctx.n(1500, 30000))
+    bad = run_value_history(cases, res)
+    seen = set()
+    for b in bad:
+        if b["kind"] not in seen or len(seen) < 3:
+            res["violations"].append(b)
+            seen.add(b["kind"])
+    for c in cases:
+        if c[0] != "size" or c[1][1] != 2:
+            res["nontrivial"].add(("value-history", repr(c)))
+    res["distribution"]["value_history_calls(each judged by the Coq oracle and repeated after all other calls)"] = len(cases)
+    res["distribution"]["value_history_square_or_swapped_video_cases"] = sum(1 for c in cases if c[2] == c[3] or (c[2], c[3]) in ((360, 640), (1080, 1920), (32, 15)))
+
+
 def run(ctx):
     res = {"evaluations": 0, "nontrivial": set(), "violations": [], "disagreements": [], "distribution": {},
-           "streams": 6, "notes": []}
+           "streams": 7, "notes": []}
     stream_parse(ctx, res)
     stream_print(ctx, res)
     stream_eq(ctx, res)
     stream_attr(ctx, res)
     stream_fresh(ctx, res)
     stream_attr_print(ctx, res)
+    stream_value_history(ctx, res)
     res["rule"] = ("parse: exhaustive short strings over the alphabet %r + structured long strings (no exclusion), non-trivial = "
                    "accepted; print: value grid + random non-negative binary64 values up to 1e23 x 5 units and every value "
                    "parsed in stream A, non-trivial = not a multiple of 0.01; eq: pairs over a grid exhaustive in units/alignments/"
@@ -739,6 +842,16 @@ def replay(ctx, rec):
             return True, o
         ok = oracle1(1809, [wire_val(a), wire_val(b)] + list(o))
         return ok != 1, o
+    if tag == "value-history":
+        def t2(y):
+            return tuple(t2(z) for z in y) if isinstance(y, list) else y
+        import random
+        cases = value_history_cases(random.Random(0), 0)
+        mine = tuple(t2(rec["input"]))
+        if mine not in cases:
+            cases.append(mine)
+        bad = [b for b in run_value_history(cases, {"evaluations": 0}, count=False) if b["kind"] == rec.get("kind")]
+        return bool(bad), (bad or [{"what": "ok"}])[0]["what"]
     if tag == "attr":
         def t(y):
             return tuple(t(z) for z in y) if isinstance(y, list) else y
